@@ -155,6 +155,11 @@ def run(ctx):
         elif iw:
             ctx.violation(f"init-value:{c['text']}:{c['goal']}", dict(base, component=int(iw.group(1))),
                           f"system of E({c['goal']}): recorded initial value of component {iw.group(1)} is not the moment before the first iteration\n{c['text']}")
+        elif bl is None:
+            # the validator gave no answer (resource limit of the kernel evaluation on a loaded machine) and neither search
+            # found a witness: undecided, counted, no verdict
+            ctx.coverage["obligations"] -= 1
+            ctx.coverage["validator_no_answer"] = ctx.coverage.get("validator_no_answer", 0) + 1
         else:
             ctx.violation(f"system-not-validated:{c['text']}:{c['goal']}", base,
                           f"validators (types, system, init) = {bl} for the system of E({c['goal']}) but no reachable state within "
